@@ -47,12 +47,16 @@ def consts(ctx):
         CFG["C"] = {(0x1111, 0x22): b"\x44", (0x0202, 0x82): CODE_A, (0x3333, None): None}
         CFG["D"] = {(0x0620, 0x01): (10234).to_bytes(4, "big"), (0x0620, 0x04): b"\x0c", (0x0620, 0x03): b"DevName",
                     (0x0202, 0x82): CODE_D, (0x4444, 0x01): None}
+        # BOTH identifiers present with different versions: the update block takes the project settings' version
+        CFG["E"] = {(0x0620, 0x01): (10234).to_bytes(4, "big"), (0x0620, 0x05): (5678).to_bytes(2, "big"),
+                    (0x0620, 0x02): (6789).to_bytes(2, "big"), (0x0620, 0x07): b"\x05", (0x0620, 0x06): b"PrjName",
+                    (0x0620, 0x04): b"\x09", (0x0620, 0x03): b"DevName", (0x0202, 0x82): CODE_D}
 
 
 FW = {"T": ({0xC3: b"\x02", 0xC1: b"\x00"}, b"main-firmware-image-bytes-01"),
       "N": ({0xC1: b"\x00"}, b"blob-without-type-tag\x00\x00")}
-OPS = ([("setcfg", c) for c in "ABCD"] + [("comments", c) for c in "ABCD"]
-       + [("auth", c, m) for c in "ABCD" for m in ("cust", "ecc")]
+OPS = ([("setcfg", c) for c in "ABCDE"] + [("comments", c) for c in "ABCDE"]
+       + [("auth", c, m) for c in "ABCDE" for m in ("cust", "ecc")]
        + [("fw", where, k) for where in ("append", "insert") for k in "TN"] + [("writeread",)])
 
 
@@ -79,7 +83,7 @@ def canon(st):
     auth = tuple((t, type(a).__name__, getattr(a, "key_selector", None), getattr(a, "version", None),
                   getattr(a, "config_security_code", None)) for t, a in b.auth_blocks.items())
     # the caller's dictionaries are part of the state (an operation that modifies them changes what later operations see)
-    cfgstate = tuple(tuple(sorted((repr(k), v) for k, v in st.cfgs[n].items())) == tuple(sorted((repr(k), v) for k, v in CFG[n].items())) for n in "ABCD")
+    cfgstate = tuple(tuple(sorted((repr(k), v) for k, v in st.cfgs[n].items())) == tuple(sorted((repr(k), v) for k, v in CFG[n].items())) for n in "ABCDE")
     # which component objects were produced by the reader (they may differ in ways the observable fields do not show)
     return (comps, tuple(sorted(b.bf3file.comments.items())), auth, st.prov, cfgstate,
             tuple(len(c.blob) for c in b.bf3file.components))
